@@ -82,6 +82,14 @@ class C14(Check):
                     for fixed in ([0], [1], [0, 1], [1, 0]):
                         yield {"algo": algo, "shape": list(shape), "family": group["family"], "rank": rank, "weights": w, "fixed": fixed,
                                "container": "tuple", "K": 9 if tier == "quick" else 12, "seed": seed, "opts": {"linesearch": True}}
+        if algo == "constrained_parafac":
+            # constraints whose proximal operator is NOT the identity on the supplied (feasible-for-nothing) initialisation: the warm start
+            # must still begin at the supplied tensor, and fixed factors must come back bit-identical
+            for rank in ranks:
+                for cons in ({"l1_reg": 0.1}, {"l2_reg": 0.2}, {"normalize": True}, {"simplex": 1.0}, {"soft_sparsity": 0.5}):
+                    for (w, fixed) in (("none", []), ("positive", []), ("none", [0]), ("positive", [0, 1])):
+                        yield {"algo": algo, "shape": list(shape), "family": group["family"], "rank": rank, "weights": w, "fixed": fixed,
+                               "container": "tuple", "K": K, "seed": seed, "cons": cons}
         for rank in ranks:
             for (w, fixed) in (("positive", []), ("positive", [0]), ("none", [1])):
                 if algo == "parafac2" and fixed:
@@ -204,7 +212,7 @@ class C14(Check):
                     return ("cp", r), init
                 if algo == "constrained_parafac":
                     r = D.constrained_parafac(tl.tensor(X), rank, n_iter_max=k, init=init, tol_outer=0, fixed_modes=list(fixed) if fixed else None,
-                                              non_negative=True, n_iter_max_inner=30, tol_inner=1e-14)
+                                              n_iter_max_inner=30, tol_inner=1e-14, **(case.get("cons") or {"non_negative": True}))
                     return ("cp", r), init
                 if algo == "tucker":
                     r = D.tucker(tl.tensor(X), rank, n_iter_max=k, init=init, tol=0, fixed_factors=list(fixed) if fixed else None)
